@@ -669,6 +669,26 @@ class World:
         def _bool(it, a, k):
             return it.truthy(a[0]) if a else False
 
+        @reg("round")
+        def _round(it, a, k):
+            v = it.unwrap(a[0], "TypeError", "type NoneType doesn't define __round__ method")
+            nd = a[1] if len(a) > 1 else k.get("ndigits")
+            if isinstance(v, (int, float)) and (nd is None or isinstance(nd, int)):
+                return round(v, nd) if nd is not None else round(v)
+            if is_z3(v) and z3.is_int(v) and (nd is None or (isinstance(nd, int) and nd >= 0)):
+                return v
+            if is_z3(v) and z3.is_real(v) and (nd is None or isinstance(nd, int)):
+                # a nearest multiple of 10**-nd (ties not modelled): |r - v| <= half a unit in the last place kept
+                half = z3.RealVal("0.5") if nd is None else z3.Q(5, 10 ** (nd + 1)) if nd >= 0 else z3.RealVal(5 * 10 ** (-nd - 1))
+                if nd is None:
+                    r = it.fresh_int("round")
+                    it.assume(z3.And(z3.ToReal(r) - v <= half, v - z3.ToReal(r) <= half))
+                    return r
+                r = it.fresh_real("round")
+                it.assume(z3.And(r - v <= half, v - r <= half))
+                return r
+            raise Unsupported("round of %s" % type(v).__name__)
+
         @reg("abs")
         def _abs(it, a, k):
             v = it.unwrap(a[0])
